@@ -157,7 +157,7 @@ func main() {
 		full := filepath.Join(*repo, dir)
 		parsed, err := parser.ParseDir(fset, full, func(fi os.FileInfo) bool {
 			return !strings.HasSuffix(fi.Name(), "_test.go")
-		}, parser.SkipObjectResolution)
+		}, parser.SkipObjectResolution|parser.ParseComments)
 		if err != nil {
 			fmt.Fprintln(os.Stderr, "parse error:", err)
 			os.Exit(1)
